@@ -480,7 +480,8 @@ def eq_model(M, interp, a, b, node):
                 # a dataclass (eq=True is the default) compares its fields, for instances of the same class
                 if not (isinstance(b, Instance) and b.cls is a.cls):
                     return False
-                return all(eq_model(M, interp, a.attrs.get(n), b.attrs.get(n), node) for n, _ in a.cls.record_fields)
+                from .interp import compare_fields
+                return all(eq_model(M, interp, a.attrs.get(n), b.attrs.get(n), node) for n in compare_fields(a.cls))
             return False
     if isinstance(b, Instance):
         return eq_model(M, interp, b, a, node)
@@ -501,6 +502,8 @@ NOTIMPL = _NotImpl()
 
 
 def is_model(a, b):
+    if isinstance(a, ExcType) and isinstance(b, ExcType):
+        return a.tname == b.tname            # one class object per built-in exception
     if isinstance(a, Masked) or isinstance(b, Masked):
         return isinstance(a, Masked) and isinstance(b, Masked)
     if isinstance(a, NanConst) or isinstance(b, NanConst):
